@@ -83,6 +83,7 @@ def xstep (trk : Nat → Bool) (s : ASt) (t : Bool) : XOp → ASt
   | .cctor | .cassign => s.put t (s.get (!t))
   | .mctor | .massign => (s.put t (s.get (!t))).put (!t) .unspec
   | .cassignSelf | .swapSelf | .use => s
+  | .assignOwn => s    -- [variant.assign]: the held alternative is assigned from itself, nothing changes
   | .swap => (s.put t (s.get (!t))).put (!t) (s.get t)
 
 /-- function wrapper: `alt 0 none` = empty, `alt (j+1) (some v)` = holds a callable of type `j` returning `v` -/
